@@ -26,6 +26,7 @@ import (
 // Defaults are the flag defaults of the real cmd/benchstat, read from `benchstat -h`.
 type Defaults struct {
 	Table, Row, Col, Ignore, Filter, Alpha, Confidence, Format string
+	Src                                                        string // help = all read from `benchstat -h`
 }
 
 var defRe = regexp.MustCompile(`(?s)  -(\w+)[^\n]*\n(.*?)(?:\n  -|\z)`)
@@ -58,20 +59,27 @@ func readDefaults(bin string) (Defaults, error) {
 		}
 		return v, true
 	}
-	var ok [8]bool
-	d.Table, ok[0] = get("table")
-	d.Row, ok[1] = get("row")
-	d.Col, ok[2] = get("col")
-	d.Ignore, ok[3] = get("ignore")
-	d.Filter, ok[4] = get("filter")
-	d.Alpha, ok[5] = get("alpha")
-	d.Confidence, ok[6] = get("confidence")
-	d.Format, ok[7] = get("format")
-	for _, o := range ok {
-		if !o {
-			return d, fmt.Errorf("cannot parse flag defaults from benchstat -h:\n%s", s)
+	// A flag the usage text does not list (or a usage text without defaults) is not a reason to
+	// stop: the built-in value is used for it and `src` says so (K then differs on case 0, the
+	// remaining cases still run and judge the command with that flag).
+	builtin := Defaults{Table: ".config", Row: ".fullname", Col: ".file", Filter: "*", Alpha: "0.05", Confidence: "0.95", Format: "text"}
+	d.Src = "help"
+	set := func(dst *string, name, def string) {
+		v, ok := get(name)
+		if !ok {
+			d.Src = "builtin:" + name
+			v = def
 		}
+		*dst = v
 	}
+	set(&d.Table, "table", builtin.Table)
+	set(&d.Row, "row", builtin.Row)
+	set(&d.Col, "col", builtin.Col)
+	set(&d.Ignore, "ignore", builtin.Ignore)
+	set(&d.Filter, "filter", builtin.Filter)
+	set(&d.Alpha, "alpha", builtin.Alpha)
+	set(&d.Confidence, "confidence", builtin.Confidence)
+	set(&d.Format, "format", builtin.Format)
 	return d, nil
 }
 
